@@ -86,6 +86,10 @@ func (ex *Exec) define(hint string, t T) T {
 	}
 	c := ex.vc.fresh(hint, t.sort)
 	ex.vc.axiom(fmt.Sprintf("(= %s %s)", c.s, t.s))
+	if ex.defs == nil {
+		ex.defs = map[string]string{}
+	}
+	ex.defs[c.s] = t.s
 	return c
 }
 
